@@ -28,6 +28,14 @@ mod key;
 mod map_queue;
 pub mod recon;
 
+/// Re-exports for the external verification harness (feature `verif`).
+#[cfg(feature = "verif")]
+pub mod verif_hooks {
+    pub use super::key::ReconKey;
+    pub use super::map_queue::MapOperationQueue;
+    pub use super::InvalidKey;
+}
+
 use recon::MapOperationReconEncoder;
 
 type RawMapOperation = MapOperation<Bytes, BytesMut>;
